@@ -328,6 +328,13 @@ func (rn *runner) evalDeadline(dl *DeadlineJob) ([]dlFinding, map[string]int) {
 			if end < killAt-earlyTol || end > killAt+lateTol+40*msNs {
 				add("impl-violation", "deadline/kill-time", fmt.Sprintf("script %s ignores the interrupt: deadline %d ms, grace %d ms: kill expected at %d ms, the command ended at %d ms", s.Name, dl.UntilMs, grace/msNs, killAt/msNs, end/msNs), "", "")
 			}
+			if q, ok := hl["quit"]; ok {
+				// is (interrupt at q, return at end) a run of the timed automaton with slack sigma?
+				counts["timed-automaton:asked"]++
+				if a := rn.ask(fmt.Sprintf("ta %d %d %d %d %d", ctxAt, grace, sigma, q, end)); !strings.HasPrefix(a, "accepted=1") {
+					add("correspondence", "model/timed-automaton", fmt.Sprintf("script %s: interrupt at %d ms and return at %d ms (context at %d ms, killDelay %d ms) is not a run of the timed automaton with slack %d ms", s.Name, q/msNs, end/msNs, ctxAt/msNs, grace/msNs, sigma/msNs), a, "")
+				}
+			}
 			if q, ok := hl["quit"]; ok && end < q+grace-earlyTol {
 				add("impl-violation", "deadline/kill-time", fmt.Sprintf("script %s: killed %d ms after the interrupt, grace period %d ms", s.Name, (end-q)/msNs, grace/msNs), "", "")
 			}
